@@ -4,6 +4,7 @@ import (
 	"fmt"
 	"sort"
 	"strings"
+	"time"
 )
 
 // C14Scenario: every change that can alter a parent's reconciliation enqueues that parent.
@@ -61,7 +62,8 @@ func C14Scenario() *Scenario {
 				Do: func(w *World) {
 					ex = &expect{mustSync: map[string]bool{}, mustNot: map[string]bool{}, startStep: w.step}
 					events := []string{"parent-spec", "parent-status", "parent-labels", "parent-unmanaged-edit", "child-edit", "child-delete", "child-status",
-						"orphan-create", "orphan-relabel", "foreign-child-edit", "wrong-uid-child", "wrong-kind-child", "related-edit", "related-relabel-away", "related-delete", "related-unselected-edit", "parent-create", "parent-delete"}
+						"orphan-create", "orphan-relabel", "foreign-child-edit", "wrong-uid-child", "wrong-kind-child", "related-edit", "related-relabel-away", "related-delete", "related-unselected-edit", "parent-create", "parent-delete",
+						"other-version-child", "related-edit-after-expiry"}
 					ev := events[w.T.Pick(len(events), "event")]
 					ex.name = ev
 					w.FaultsFired["event:"+ev]++
@@ -196,7 +198,25 @@ func C14Scenario() *Scenario {
 							}
 							ex.noAdd = true
 						}
-					case "related-edit", "related-relabel-away", "related-delete", "related-unselected-edit":
+					case "other-version-child":
+						// a child controlled by the parent (kind, name, UID) whose owner reference
+						// was written through another served version of the parent's API group
+						if po != nil && managed(po) && metaRO(po)["deletionTimestamp"] == nil {
+							ns := s.childNSFor(po, k0, 0)
+							name := fmt.Sprintf("%s-otherversion-r%d", p.Name, r)
+							c := s.TP.desiredChild(po, k0, name, ns, 0)
+							if cfg.GenerateSelector {
+								setPath(c, mstr(po, "uid"), "metadata", "labels", "controller-uid")
+							}
+							ref := ownerRefObj(po, true)
+							ref["apiVersion"] = p.Res.Group + "/v1beta1"
+							setPath(c, []interface{}{ref}, "metadata", "ownerReferences")
+							if _, e := w.Store.Create(k0, ns, c, "user"); e == nil {
+								ex.mustSync[pkey(p)] = true
+								others()
+							}
+						}
+					case "related-edit", "related-relabel-away", "related-delete", "related-unselected-edit", "related-edit-after-expiry":
 						// which parents currently have ConfigMap r0 of their namespace in their related set?
 						if po == nil || !managed(po) {
 							break
@@ -214,8 +234,20 @@ func C14Scenario() *Scenario {
 							break
 						}
 						selected := labelsOf(cur)["rel"] == "a"
+						if ev == "related-edit-after-expiry" {
+							// nothing touches the parents for longer than the customize answers are
+							// cached (20 minutes): the event handler has to ask the hook again
+							for waited := time.Duration(0); waited < 25*time.Minute; waited += time.Minute {
+								w.Sleep(time.Minute)
+								for i := 0; i < 50 && !w.Idle(); i++ {
+									w.StepOnce(FairPolicy)
+								}
+							}
+							ex.startStep = w.step
+							w.Probe("c14:related-change-after-answer-cache-expired")
+						}
 						switch ev {
-						case "related-edit", "related-unselected-edit":
+						case "related-edit", "related-unselected-edit", "related-edit-after-expiry":
 							EditObject(w, ResConfigMap, ns, name, "user", func(o Object) { setPath(o, fmt.Sprint(w.step), "data", "v") })
 						case "related-relabel-away":
 							EditObject(w, ResConfigMap, ns, name, "user", func(o Object) { setPath(o, "zzz", "metadata", "labels", "rel") })
